@@ -29,6 +29,7 @@
 ; --- indexing
 (assert (! (forall ((a BSeq) (b BSeq) (i Int)) (! (= (at (cat a b) i) (ite (< i (len a)) (at a i) (at b (- i (len a))))) :pattern ((at (cat a b) i)))) :named ax_at_cat))
 (assert (! (forall ((x Int)) (! (= (at (unit x) 0) x) :pattern ((unit x)))) :named ax_at_unit))
+(assert (! (forall ((x Int) (i Int)) (! (=> (= i 0) (= (at (unit x) i) x)) :pattern ((at (unit x) i)))) :named ax_at_unit_i))
 (assert (! (forall ((b Int) (n Int) (i Int)) (! (=> (and (<= 0 i) (< i n)) (= (at (rep b n) i) b)) :pattern ((at (rep b n) i)))) :named ax_at_rep))
 (assert (! (forall ((s BSeq) (n Int) (i Int)) (! (=> (and (<= 0 i) (< i n)) (= (at (take s n) i) (at s i))) :pattern ((at (take s n) i)))) :named ax_at_take))
 (assert (! (forall ((s BSeq) (n Int) (i Int)) (! (=> (and (<= 0 n) (<= 0 i)) (= (at (drop s n) i) (at s (+ i n)))) :pattern ((at (drop s n) i)))) :named ax_at_drop))
